@@ -564,15 +564,38 @@ def rule_combinators(ctx: Ctx) -> None:
     ctx.floor("C02-5", 9)
 
 
+def rule_hook_list_ownership(ctx: Ctx) -> None:
+    """C02-6: an event's completion-hook list belongs to one process: it is handed on only to that process's own continuations.  Any other
+    event constructed with `on_complete=<another event>.on_complete` shares the list object, so whichever finishes first runs and clears
+    the hooks of the other."""
+    prog = ctx.prog
+    allowed = {("happysimulator/core/event.py", "self.on_complete"), ("happysimulator/core/sim_future.py", "self._parked_on_complete")}
+    n = 0
+    for fn in prog.all_functions("happysimulator/"):
+        for c in calls_in(fn.node):
+            for k in c.keywords:
+                if k.arg == "on_complete":
+                    n += 1
+                    v = k.value
+                    src = path_of(v)
+                    fresh = isinstance(v, (ast.List, ast.Constant)) or (isinstance(v, ast.Call) and path_of(v.func) in ("list", "copy.copy")) or (isinstance(v, ast.IfExp)) or (src is not None and "." not in src)
+                    ok = fresh or (fn.module.relpath, src) in allowed
+                    ctx.ob("C02-6", "G7", fn, c, ok, f"{fn.qual}: `on_complete={unparse(v)}` — a completion-hook list is passed on only to the continuation of the same process (or is a fresh list); sharing another event's list makes its hooks fire at the wrong instant")
+    need(n >= 3, f"C02-6: expected >= 3 on_complete hand-over sites, found {n}")
+    ctx.floor("C02-6", 3)
+
+
 def run(ctx: Ctx) -> None:
     ctx.guarded(rule_continuation_provenance)
     ctx.guarded(rule_return_discipline)
     ctx.guarded(rule_hooks_one_shot)
     ctx.guarded(rule_future_latch)
     ctx.guarded(rule_combinators)
+    ctx.guarded(rule_hook_list_ownership)
 
 
 MUTANTS = [
+    ("forward-shares-hook-list", "happysimulator/core/entity.py", "            target=target,\n            context=event.context,\n        )", "            target=target,\n            context=event.context,\n            on_complete=event.on_complete,\n        )", "C02-6"),
     ("continuation-resumes-immediately", EV, "resume_time = self.time + delay", "resume_time = self.time", "C02-1"),
     ("continuation-loses-hooks", EV, "                on_complete=self.on_complete,\n                process=self.process,", "                process=self.process,", "C02-1"),
     ("continuation-loses-context", EV, "                context=self.context,  # Preserve trace context\n", "", "C02-1"),
